@@ -741,6 +741,42 @@ theorem seq_call_delivered_typed_and_unaltered (outs : List Ty) (gs : List PairR
   obtain ⟨h1, h2, h3⟩ := multi_delivered_typed_and_unaltered g.results outs rs hc
   exact ⟨g, hg, h1, h2, h3⟩
 
+/-- **`Returns(v)` with one bare value is `Return(v)`**: whatever `v` is — a scalar, a struct, or a slice / array / map that
+    is itself the stubbed value (also when its elements would fit the declared type) — every call gets exactly what
+    `Return(v)` delivers, and a rejected `v` is rejected with the same class.  (`PairRet.WF`: `v` is not a `[]interface{}`.) -/
+theorem returns_single_value_is_return (b : Boxed) (out : Ty) (i : Nat) (hwf : (PairRet.one b).WF) :
+    (match seqConfigure K [out] [.one b] with
+     | .ok stored => seqCall stored [out] i
+     | .error e => .cfgPanic e) = returnE2E K [b] [out] := by
+  rw [← matches_bare_value_is_single_result b out hwf]
+  cases h : seqConfigure K [out] [.one b] with
+  | ok stored =>
+    obtain ⟨g, hg, hc⟩ := seq_call_is_group [out] [.one b] stored i (by simp) h
+    have : g = .one b := by
+      have : min i ([PairRet.one b].length - 1) = 0 := by simp
+      rw [this] at hg; simpa using hg.symm
+    subst this
+    simpa using hc
+  | error e =>
+    simp only [seqConfigure, PairRet.results] at h
+    cases hI : I2V K [b] [out] false with
+    | error e' =>
+      simp [hI] at h
+      subst h
+      simp [matchesE2E, PairRet.results, hI]
+    | ok vs => simp [hI] at h
+
+/-- so a typed slice given as the single element of `Returns` to an `interface{}`-like result arrives boxed, whole -/
+theorem returns_single_slice_boxed (e : Ty) (x : Val) (out : Ty) (i : Nat) (hk : out.kind = .iface)
+    (himp : implements out (.slice e) = true) (hne : isAnySlice (.slice e) = false) :
+    (match seqConfigure K [out] [.one (some (.slice e, x))] with
+     | .ok stored => seqCall stored [out] i
+     | .error e => .cfgPanic e) = .got [⟨out, .iface, true, .ifaceOf (.slice e) x⟩] := by
+  rw [returns_single_value_is_return _ out i (by simpa [PairRet.WF] using hne)]
+  exact (boxed_keeps_dynamic_type (.slice e) x out hk himp (by simp [isIContextPtr])).2.1
+
+example : implements (.iface []) (.slice tInt64) = true ∧ isAnySlice (.slice tInt64) = false := by decide
+
 example : seqConfigure K [tError] [.one none, .one none] = .ok [[zeroRV tError], [zeroRV tError]] := by
   have h := (nil_is_typed_zero tError (by decide)).1
   simp [seqConfigure, PairRet.results, I2V_single, h]
